@@ -35,7 +35,7 @@ ASSUMPTIONS = [
     'starts beyond depth 32 would pass',
 ]
 
-NAMES = ['A%d' % i for i in range(1, 80)]
+NAMES = ['A%d' % i for i in range(1, 300)]
 
 
 def _cycle_case(n_prefix, length, entry, via):
@@ -67,7 +67,7 @@ def enumerate_cases(tier, shard=0, nshards=1):
                     out.append(_cycle_case(prefix, length, entry, via))
     # long cycles / long prefixes (well inside Python's recursion limit)
     for length, prefix in ((10, 0), (26, 3), (27, 0), (40, 10), (1, 60),
-                           (60, 0), (2, 50)):
+                           (60, 0), (2, 50), (102, 0), (150, 20), (200, 0)):
         for entry in (0, prefix, prefix + length - 1):
             for via in ('ref', 'range'):
                 out.append(_cycle_case(prefix, length, entry, via))
